@@ -63,7 +63,8 @@ def main():
         sys.exit(0)
     prop = props.PROPS[args.what]
     if getattr(prop, 'DRIVER', None):
-        code, _ = prop.DRIVER(prop, args.tier, seed, nruns=args.runs, workers=args.workers, wall_cap=args.wall)
+        code, _ = prop.DRIVER(prop, args.tier, seed, nruns=args.runs, workers=args.workers, wall_cap=args.wall,
+                              write_evidence=not args.no_evidence)
         sys.exit(code)
     code, _ = runner.run_check(prop, args.tier, seed, nruns=args.runs, workers=args.workers, wall_cap=args.wall,
                                only_arm=args.arm, write_evidence=not args.no_evidence,
